@@ -57,12 +57,56 @@ def _ext(term, bits, signed):
     return z3.SignExt(S.W - bits, term) if signed else z3.ZeroExt(S.W - bits, term)
 
 
+def _link(en, fname, addr, nbytes, endian):
+    """Definitional axiom W(addr) = concat(B(addr+k)) for a word at a concrete address (added lazily, only when
+    the same bytes are also observed through another view)."""
+    key = (fname, addr, nbytes, endian)
+    if key in en.linked:
+        return
+    en.linked.add(key)
+    f, g = word_uf(fname, nbytes, endian)
+    e, ei = f(bvval(addr)), g(z3.IntVal(addr))
+    bf, bg = byte_uf(fname)
+    order = range(nbytes) if endian == "le" else range(nbytes - 1, -1, -1)
+    bs = [bf(bvval(addr + k)) for k in order]  # least significant first
+    cat = z3.Concat(*reversed(bs))
+    isum = sum(bg(z3.IntVal(addr + k)) * (256 ** n) for n, k in enumerate(order))
+    for k in range(nbytes):
+        bi = bg(z3.IntVal(addr + k))
+        en._add_int(z3.And(bi >= 0, bi <= 255))
+    bits = 8 * nbytes
+    uns = z3.If(ei < 0, ei + (1 << bits), ei)
+    en.assume_raw(e == cat, uns == isum)
+
+
+def _note_concrete(en, fname, addr, nbytes, endian):
+    """Track concrete-address views of a file and link overlapping ones."""
+    views = getattr(en, "views", None)
+    if views is None or not hasattr(en, "linked"):
+        return
+    mine = (addr, nbytes, endian)
+    fv = views.setdefault(fname, [])
+    if mine in fv:
+        return
+    for (a2, n2, e2) in fv:
+        if a2 < addr + nbytes and addr < a2 + n2:
+            # overlapping, different view: express both through bytes
+            if nbytes > 1:
+                _link(en, fname, addr, nbytes, endian)
+            if n2 > 1:
+                _link(en, fname, a2, n2, e2)
+    fv.append(mine)
+
+
 def byte_at(fname, addr):
     f, g = byte_uf(fname)
     ab, ai, _, _ = parts(addr)
     e, ei = f(ab), g(ai)
-    eng()._add_int(z3.And(ei >= 0, ei <= 255))
+    en = eng()
+    en._add_int(z3.And(ei >= 0, ei <= 255))
     _record("B", fname, 1, "le", addr, e)
+    if isinstance(addr, int):
+        _note_concrete(en, fname, addr, 1, "le")
     return SymInt(_ext(e, 8, False), ei, 0, 255)
 
 
@@ -90,24 +134,15 @@ def word_at(fname, addr, nbytes, endian, signed=False):
     else:
         lo, hi = 0, (1 << bits) - 1
     en = eng()
-    en._add_int(z3.And(ei >= lo, ei <= hi))
+    if signed:
+        # the Int-side function symbol always denotes the unsigned word
+        en._add_int(z3.And(ei >= 0, ei <= (1 << bits) - 1))
+        ei = z3.If(ei >= (1 << (bits - 1)), ei - (1 << bits), ei)
+    else:
+        en._add_int(z3.And(ei >= lo, ei <= hi))
     _record("W", fname, nbytes, endian, addr, e)
     if isinstance(addr, int):
-        linked = getattr(en, "linked", None)
-        key = (fname, nbytes, endian, addr, signed)
-        if linked is not None and key not in linked:
-            linked.add(key)
-            bf, bg = byte_uf(fname)
-            order = range(nbytes) if endian == "le" else range(nbytes - 1, -1, -1)
-            # bytes from least significant to most significant
-            bs = [bf(bvval(addr + k)) for k in order]
-            cat = z3.Concat(*reversed(bs))
-            isum = sum(bg(z3.IntVal(addr + k)) * (256 ** n) for n, k in enumerate(order))
-            for k in range(nbytes):
-                bi = bg(z3.IntVal(addr + k))
-                en._add_int(z3.And(bi >= 0, bi <= 255))
-            uns = ei if not signed else z3.If(ei < 0, ei + (1 << bits), ei)
-            en.assume_raw(e == cat, uns == isum)
+        _note_concrete(en, fname, addr, nbytes, endian)
     return SymInt(_ext(e, bits, signed), ei, lo, hi)
 
 
